@@ -32,6 +32,7 @@ type RuleInfo struct {
 }
 
 type Check struct {
+	sharing  map[string]bool // properties whose rule sets are being evaluated further up the Share chain
 	P        *Prog
 	Property string
 	Tier     string
@@ -339,7 +340,15 @@ func (c *Check) Share(from string, rules []string, min int) {
 	if !ok {
 		return
 	}
+	// shares form cycles (C01 ↔ C10): a property already being evaluated further up is not entered again
+	if from == c.Property || c.sharing[from] {
+		return
+	}
 	sub := NewCheck(c.P, from, c.Tier, c.Seed)
+	sub.sharing = map[string]bool{c.Property: true}
+	for k := range c.sharing {
+		sub.sharing[k] = true
+	}
 	func() {
 		defer func() {
 			if r := recover(); r != nil {
